@@ -30,7 +30,8 @@ TieBroken = getattr(_main, "TieBroken", _runner.TieBroken)
 Infra = getattr(_main, "Infra", _runner.Infra)
 
 ID = "C11"
-LEAN_MODULES = ["PyYetiVerif.Props.C11", "PyYetiVerif.Audit.C11"]
+LEAN_MODULES = ["PyYetiVerif.Props.C11", "PyYetiVerif.Props.C11b", "PyYetiVerif.Props.C11c", "PyYetiVerif.Props.C11d",
+                "PyYetiVerif.Props.C11e", "PyYetiVerif.Audit.C11"]
 AUDIT_FILE = "PyYetiVerif/Audit/C11.lean"
 THEOREMS = [
     "PyYetiVerif.C11." + n
@@ -40,19 +41,34 @@ THEOREMS = [
         "op2_int_roundtrip op2_key_roundtrip op2_header_roundtrip op2_nt_roundtrip op2_matrix_roundtrip "
         "op2_partition_irrelevant op2_cutoff_irrelevant op2_skip_positions op2_skip_record op2_table_roundtrip "
         "op2_open_detects op2_dir_matches_read op2_roundtrip op2_skip_positions_general op2_skip_record_general "
-        "op2_goto_next"
+        "op2_goto_next "
+        # Props/C11b: the binary OUTPUT4 reader, every variant
+        "op4_variant_file_roundtrip skip_positions_variants dir_matches_load_variants namelist_test_exact "
+        "named_subset_is_filter_binary op4_cutoff_paths_agree op4_cutoff_irrelevant_enc op4_cutoff_irrelevant "
+        "op4_variant_dense_matrix mem_puts_iff dct_keeps_last "
+        # Props/C11c: ASCII OUTPUT4, on every text the reader accepts
+        "skip_positions_ascii dir_is_iterated_skip dir_matches_load_ascii named_subset_is_filter_ascii "
+        "dir_matches_load_ascii_written "
+        # Props/C11d: rdop2record(form, N), rdop2tabheaders with short pieces
+        "rdRecord_form_consistent rdRecord_form_consistent_partial smallItems_trivial uint64_struct_path_counterexample "
+        "rdRecord_N_irrelevant op2_tabheaders_any_pieces op2_tabheader_prefix "
+        # Props/C11e: rdop2mats(names, which)
+        "op2_name_test_exact op2_has_match_any op2_named_subset_is_filter op2_which_indexing op2_which_occurrence"
     ).split()
 ]
 TRUSTED = [
     "correspondence harness harness/props/c11.py (exact comparison of decoded content with the encoded logical content; "
-    "exact comparison of the Lean reader model's dump with what pyYeti's readers return / raise)",
-    "Model/Op2Read.lean is a hand transcription of op2.py (no translator): its agreement with the code is what the rd2 "
-    "streams check on generated files, on the 31 sample files of pyyeti/tests written by Nastran and on truncated / "
-    "mis-announced files; the file position is modelled as the list of bytes still ahead (tell = total - remaining; a "
-    "seek beyond the end is always followed by a _getkey that raises, argued in the model's header, not proved)",
+    "exact comparison of the Lean reader models' dumps with what pyYeti's readers return / raise)",
+    "Model/Op2Read.lean, Model/Op2ReadForms.lean (op2.py) and Model/Op4VariantsRead.lean, Model/Op4VariantsAscii.lean (op4.py) are "
+    "hand transcriptions (no translator; the literals 65536 / 3000 / 16 come from Generated/Op4Consts.lean): their agreement with the "
+    "code is what the rd2 / rd4 / rda / rec2 / mats2 streams check on generated files, on EVERY sample file of pyyeti/tests (31 "
+    "*.op2, 82 *.op4 written by Nastran and others; ASCII ones through C04's reader model) and on truncated / mis-announced / "
+    "ill-formed files; the file position is modelled as the list of bytes still ahead (tell = total - remaining; a seek beyond the "
+    "end is always followed by a read that raises, argued in the models' headers, not proved)",
     "the record grammar of OUTPUT2 is the one pyYeti's reader defines (no Nastran specification offline); OUTPUT4 "
     "variants as in the sample files of pyyeti/tests",
-    "CPython float() for the expected value of an ASCII field; numpy float32 -> float64 conversion; little-endian host",
+    "CPython float() for the expected value of an ASCII field; numpy float32 -> float64 conversion; numpy slice assignment "
+    "(clipping, one-value broadcast) and scipy's COO constructor as modelled by assignCol / the driver; little-endian host",
 ]
 RULE = (
     "a case is one file built from a logical content: OUTPUT4 binary (byte order x 32/64-bit keys x single/double x "
@@ -61,67 +77,78 @@ RULE = (
     "65536 / 65537 with positive and negative NR), OUTPUT4 ASCII (E or D exponents, perline 1..5, widths 12..26, "
     "with/without 1P, lower case), OUTPUT2 (byte order x key width, matrix blocks single/double real/complex with split "
     "columns, strings of 2999/3000/3001 and more reals, table blocks with super-records whose pieces have 2999/3000/"
-    "3001/5000 keys in first and later positions); each file is read in all modes and listed. Reader-model streams "
-    "(driver command rd2 = Model/Op2Read.lean on the raw bytes): every generated OUTPUT2 file (model = content = "
-    "pyYeti), every *.op2 under pyyeti/tests (model = pyYeti: dblist, goto_next, every matrix, every table record, "
-    "rdop2mats), malformed files (truncation at random positions and at block boundaries, wrong first word, the other "
-    "key width announced, contents that violate the encoder's well-formedness: strings that do not fit, row 0, more "
-    "columns than the trailer says, table pieces with fewer than three keys): model and pyYeti must return the same or "
-    "raise the same exception class; non-trivial = some column has at least two strings or some record is split, every "
-    "rd2 case; distinct by the logical content and variant / by the bytes"
+    "3001/5000 keys in first and later positions); each file is read in all modes and listed. Reader-model streams: rd2 "
+    "(Model/Op2Read.lean) as before; rd4 (Model/Op4VariantsRead.lean): every generated binary OUTPUT4 file (model = content, three "
+    "sparse modes + dir), every binary *.op4 under pyyeti/tests (model = pyYeti), name lists (a name, a proper prefix of a name, an "
+    "upper-case name, unknown names, several names; list and dict mode), other values of _rowsCutoff (0, 1, 2, 7, 2999, 3001, 1e9) on "
+    "both sides, truncated files and contents violating one well-formedness hypothesis (string too long, one value beyond the "
+    "column, odd complex count) - same result or same exception class; ASCII: every ASCII *.op4 under pyyeti/tests and the "
+    "generated variant files through C04's ASCII reader model (three modes + dir), the name-list loop (rda); rec2 "
+    "(Model/Op2ReadForms.lean): rdop2record with every form x N in {0, count, count-1, count+2, 1} x cut-offs at record starts and "
+    "at the end-of-table key, incl. pieces whose byte length is not a multiple of the item width; mats2: rdop2mats with names "
+    "(plain, lower case, trailing *, '*', an empty pattern, unknown) x which in {-1, 0, 1, -2, 5, 'all'} on files with repeated "
+    "names; non-trivial = some column has at least two strings or some record is split, every reader-model case; distinct by the "
+    "logical content and variant / by the bytes and the call"
 )
 ASSUMPTIONS = [
     "strings of one column do not overlap (adjacent is allowed) in the generated cases (the theorems allow overlap: "
-    "IsPartition); values are finite and not -0.0",
-    "table record pieces have at least three keys (rdop2tabheaders reads a 3-key header from every piece) - explicit "
-    "hypothesis of op2_table_roundtrip / BlockOk; fewer keys are exercised in the malformed-content stream",
+    "IsPartition / PutOk + covers); values are finite and not -0.0",
+    "table record pieces have at least three keys in the generated well-formed cases; fewer keys are exercised in the "
+    "malformed-content stream and covered by op2_tabheaders_any_pieces",
     "OUTPUT2 matrices have at least one column (hypothesis cols != [] of the theorems: with no column the encoder writes "
     "no column trailer and the do-while of rdop2matrix misreads the next block)",
-    "behaviour outside the reader model (Err.exotic: backward seek from a negative record length, non-ASCII header "
-    "text, allocation of >= 2^31 bytes from a garbage key) is skipped and counted, only on malformed files",
+    "behaviour outside the reader models (Err.exotic: backward seek, non-ASCII header / name text, allocation of >= 2^31 bytes from "
+    "a garbage key, a put with a negative row or column, rdop2record with N larger than the record = uninitialised memory, "
+    "rdop2mats(names=[]) = StopIteration) is skipped and counted, only on malformed files / ill-posed calls",
+    "op4 sample files with a matrix of more than 2e7 elements are read sparsely only (both sides); in the quick tier sample files "
+    "above 400 kB (op4) / 3 MB (op2) are left to the thorough tier",
 ]
 PARTIAL = (
-    "proved (Lean): OUTPUT4 column-payload round trip for any string partition and either words-per-real (word level), "
-    "partition_irrelevant; OUTPUT4 skip_positions and dir_matches_load for the variant Model/Op4.lean models in full "
-    "(32-bit keys, double precision, both byte orders, three layouts). OUTPUT2, about the transcription Model/Op2Read.lean "
-    "of op2.py's readers and the independent encoder Model/Op2.lean, for both key widths, both byte orders, single/double, "
-    "real/complex: op2_int/key/header/nt_roundtrip, op2_matrix_roundtrip (any strings that fit, both sides of the "
-    "3000-value cut-over: op2_cutoff_irrelevant), op2_partition_irrelevant (any two IsPartition cuts of the same columns "
-    "read equally), op2_table_roundtrip (records = concatenated pieces, then None; tabheaders = 3 keys + byte length of "
-    "every piece), op2_skip_positions / op2_skip_record (skippers leave what the readers leave on encoded bodies) and "
-    "op2_skip_positions_general / op2_skip_record_general (the same on EVERY byte string on which the reader succeeds and "
-    "the visited record lengths are aligned), op2_open_detects, op2_dir_matches_read (directory = entriesFrom with byte "
-    "ranges = positions; reading from a listed start returns the block and ends at the listed stop), op2_goto_next, "
-    "op2_roundtrip (rdop2mats = last block of every distinct matrix name, in order of first appearance). "
-    "NOT proved: OUTPUT4 skip_positions / dir_matches_load for 64-bit keys, single precision and ASCII, named_subset = "
-    "filter, OUTPUT4 cutoff_irrelevant (no Lean model of those readers) - established by the exact correspondence "
-    "streams (dir, namelist subset, read-vs-skip end positions, strings on both sides of the 3000-value cut-off, rows "
-    "65535..65537) only. For OUTPUT2 the step from Model/Op2Read.lean to op2.py is a checked correspondence (rd2 streams), "
-    "not a proof; rdop2mats with a name list / wildcards / which != -1, rdop2record with form != int or N > 0, and "
-    "next_db_info's bisect (modelled as 'first block starting after the position', equal for increasing starts) are not "
-    "modelled; a converse of the general skip theorem (skip succeeds => read succeeds) does not hold (shape errors) and "
-    "is not stated"
+    "proved (Lean), new in this extension: OUTPUT4 binary - Model/Op4VariantsRead.lean transcribes _op4open_read/_decode_format, "
+    "_loadop4_binary, _get_funcs, _rd_dense/_bigmat/_nonbigmat_binary, _skipop4_binary, _check_name and the listload/dir loops "
+    "generically over (byte order, key width, precision, _rowsCutoff): op4_variant_file_roundtrip (EVERY variant, every admissible "
+    "list of matrices, every partition: the reader returns exactly the encoded strings, names, header integers, chosen reader, "
+    "sparse=None resolution), op4_variant_dense_matrix (the puts rebuild the partitioned matrix for any partition), "
+    "skip_positions_variants, dir_matches_load_variants, named_subset_is_filter_binary + namelist_test_exact (exact membership), "
+    "dct_keeps_last, op4_cutoff_irrelevant (on EVERY byte string: success with one cut-off = same success with any other) + "
+    "op4_cutoff_paths_agree. OUTPUT4 ASCII (on C04's reader model, no encoder: on EVERY text on which the read succeeds): "
+    "skip_positions_ascii, dir_matches_load_ascii, named_subset_is_filter_ascii, dir_matches_load_ascii_written. OUTPUT2: "
+    "rdRecord_form_consistent (all forms decode the same payload bytes; int/uint/single/double/bytes, both cut-off paths), "
+    "rdRecord_N_irrelevant, op2_tabheaders_any_pieces (pieces of 1 or 2 keys: what is reported), op2_named_subset_is_filter + "
+    "op2_name_test_exact (exact match unless the pattern ends in *; patterns are upper-cased, names are not), op2_which_indexing, "
+    "op2_which_occurrence. STILL NOT PROVED: (1) the step from the reader models to op4.py / op2.py is a checked correspondence "
+    "(hand transcriptions), not a proof; (2) the binary OUTPUT4 skip / dir / named theorems are stated on encoded files (a general "
+    "'aligned record lengths' form as for OUTPUT2 is not stated; the cut-off theorem IS general); (3) a round trip for ASCII files "
+    "in the variants the writer never produces (D exponents, other nEw.d) is not proved - C04 proves it for the writer's files; the "
+    "variant files are read by the ASCII reader model and pyYeti with equal results (stream asc:generated); (4) finding "
+    "op2-rdop2record-uint-i64-struct-format-stays-signed: form 'uint' with 64-bit keys is proved only under SmallItems "
+    "(rdRecord_form_consistent_partial; necessity: uint64_struct_path_counterexample); (5) dict mode: the value per key is proved "
+    "(last occurrence), the key ORDER (first appearance) only checked by correspondence; the COO view (cooOfPuts, the 1j*y sign "
+    "quirk) and numpy's slice semantics on ill-formed puts (assignCol) are model definitions checked by correspondence; "
+    "(6) rdop2record on arbitrary bytes (no encoder) and rdop2mats(lower=True / header tuples / names=[]) are not treated; "
+    "next_db_info's bisect is modelled as 'first block starting after the position' (equal for increasing starts); a converse of the "
+    "general skip theorems does not hold (shape errors) and is not stated"
 )
 MANIFEST = {
-    "level_text": "Proof (Lean 4) that the word-level column decoders of the OUTPUT4 reader, generalised over the words "
-    "per real, invert the encoder for every partition of a column into strings (bigmat and nonbigmat), hence two "
-    "partitions of the same column decode equally; the OUTPUT4 binary skipper ends where the reader ends and dir lists "
-    "what load returns (32-bit keys, double precision). Proof (Lean 4) that a transcription of pyYeti's OUTPUT2 readers "
-    "(_op2open, _getkey, rdop2header, rdop2nt, rdop2matrix, skipop2matrix, rdop2record, skipop2record, rdop2tabheaders, "
-    "directory, goto_next, rdop2mats) inverts an independent encoder for every key width, byte order, precision, "
-    "real/complex, string partition and record split; that skipping leaves the bytes that reading leaves (on encoded "
-    "bodies, and on every byte string with aligned record lengths); that the directory lists the true byte ranges and "
-    "positioned reads return the listed blocks; that rdop2mats keeps the last block of a repeated name. Plus exact "
-    "correspondence: files produced by the Lean encoders are read back by pyYeti's readers to exactly the encoded "
-    "content, and the Lean reader model returns / raises exactly what pyYeti returns / raises on generated files, on "
-    "the OUTPUT2 sample files written by Nastran and on truncated or mis-announced files.",
-    "level_note": "Partial: OUTPUT4 listing/skip for the other key widths / precisions / ASCII are not proved, only "
-    "checked by correspondence; the OUTPUT2 reader model is tied to op2.py by differential checking (hand transcription, "
-    "no translator). The OUTPUT2 layout is the one pyYeti's reader defines. Trusted: Lean kernel, standard axioms, the "
+    "level_text": "Proof (Lean 4) about transcriptions of pyYeti's readers. OUTPUT4 binary, generic over byte order, 32/64-bit keys, "
+    "single/double precision and the struct/fromfile cut-off: the reader inverts an independent encoder for every variant, layout "
+    "and partition of the columns into strings (file round trip; the dense matrix is rebuilt for any partition); the skipper ends "
+    "where the reader ends; dir lists what load returns; a named read is the filter of the full read by exact name membership (list "
+    "mode keeps all occurrences, dict mode the last); the result never depends on _rowsCutoff (proved on every byte string). OUTPUT4 "
+    "ASCII, on every text the reader accepts: _skipop4_ascii consumes the lines the reader consumes, dir = load, named read = filter. "
+    "OUTPUT2: the readers invert an independent encoder (both key widths, byte orders, precisions, any string partition and record "
+    "split); skipping = reading; directory byte ranges; rdop2record decodes the same bytes in every form, N is only a size hint, "
+    "rdop2tabheaders on pieces of 1-2 keys; rdop2mats(names, which) = filter by 'exact match unless the pattern ends in *' of the "
+    "occurrences `which` picks. Plus exact correspondence of every reader model with pyYeti on generated files, on all 113 sample "
+    "files of pyyeti/tests and on truncated / ill-formed files.",
+    "level_note": "Partial: the reader models are tied to op4.py / op2.py by differential checking (hand transcriptions, no "
+    "translator); OUTPUT4 binary skip/dir/named theorems are about encoded files; ASCII variant round trip (D exponents, other "
+    "widths) by correspondence only; finding op2-rdop2record-uint-i64-struct-format-stays-signed excluded by an explicit hypothesis "
+    "(counterexample proved). The OUTPUT2 layout is the one pyYeti's reader defines. Trusted: Lean kernel, standard axioms, the "
     "Python harness.",
-    "technique": "Lean 4 proof (induction over strings / pieces / columns / blocks with fuel-indexed loops, byte-level "
-    "two's-complement lemmas, generic real codec) + independent Lean encoders read by the real readers + Lean reader "
-    "model run on real and malformed files",
+    "technique": "Lean 4 proof (induction over strings / pieces / columns / records / matrices with fuel-indexed loops, byte-level "
+    "two's-complement lemmas, simulation proofs skipper-vs-reader and cutoff-vs-cutoff on arbitrary inputs) + independent Lean "
+    "encoders read by the real readers + Lean reader models run on real, generated and malformed files",
 }
 
 # ---------------------------------------------------------------------------------------------
@@ -911,7 +938,21 @@ def correspondence(ctx):
                                     "rd2:open-raises-value", "rd2:block-raises-struct", "rd2:block-raises-value",
                                     "rd2:block-raises-index", "rd2:block-table", "rd2:block-matrix", "rd2:l-32", "rd2:l-64",
                                     "rd2:b-32", "rd2:b-64", "rd2:matrix-width-4-real", "rd2:matrix-width-4-complex",
-                                    "rd2:matrix-width-8-real", "rd2:matrix-width-8-complex"])
+                                    "rd2:matrix-width-8-real", "rd2:matrix-width-8-complex"]
+                                 + ["stream:rd4:generated", "stream:rd4:sample-file", "stream:asc:sample-file", "stream:rd4:named-plain",
+                                    "stream:rd4:named-prefix", "stream:rd4:named-upper", "stream:rd4:cutoff", "stream:rd4:malformed-truncated",
+                                    "stream:rd4:malformed-content-string-too-long", "stream:rd4:malformed-content-one-value-beyond",
+                                    "rd4:dict-mode", "rd4:named-selects-none", "rd4:named-selects-some", "rd4:raises-struct", "rd4:raises-value",
+                                    "rd4:l-32-single", "rd4:l-32-double", "rd4:l-64-single", "rd4:l-64-double", "rd4:b-32-single",
+                                    "rd4:b-32-double", "rd4:b-64-single", "rd4:b-64-double", "rd4:sample-be-32", "rd4:sample-be-64",
+                                    "rd4:sample-le-32", "rd4:sample-le-64", "rd4:sample-mtype-1", "rd4:sample-mtype-2", "rd4:sample-mtype-3",
+                                    "rd4:sample-mtype-4", "asc:sample-mtype-1", "asc:sample-mtype-2", "asc:sample-mtype-3", "asc:sample-mtype-4",
+                                    "stream:asc:generated", "stream:asc:named", "asc:model-D", "asc:model-E", "asc:named-selects-none",
+                                    "asc:named-selects-some", "stream:rec2:int", "stream:rec2:uint", "stream:rec2:single", "stream:rec2:double",
+                                    "stream:rec2:bytes", "rec2:N=0", "rec2:N>0", "rec2:other-cutoff", "rec2:result-ok", "rec2:result-none",
+                                    "rec2:result-err", "rec2:piece-length-not-a-multiple-of-the-item-width", "stream:mats2:names-none",
+                                    "stream:mats2:names-plain", "stream:mats2:names-wildcard", "mats2:which--1", "mats2:which-0",
+                                    "mats2:which-all", "mats2:selects-none", "mats2:selects-some", "mats2:raises-index"])
     finally:
         sc.close()
 
@@ -1511,14 +1552,18 @@ def _exotic4(model):
     return isinstance(model, tuple) and model and model[0] == "err" and model[1] in ("exotic", "fuel")
 
 
-def _rd4_compare(ctx, stream, desc, impl, model):
-    """exact comparison of two canonical readings; a 'put-error:<class>' item of the model stands for an exception of
-    that class raised while the matrix is assembled"""
+def _rd4_norm(model):
+    """a 'put-error:<class>' item of the model stands for an exception of that class raised while the matrix is assembled"""
     if isinstance(model, list):
         for it in model:
             if len(it) > 6 and isinstance(it[6], str) and it[6].startswith("put-error"):
-                model = ("err", it[6].split(":")[1])
-                break
+                return ("err", it[6].split(":")[1])
+    return model
+
+
+def _rd4_compare(ctx, stream, desc, impl, model):
+    """exact comparison of two canonical readings"""
+    model = _rd4_norm(model)
     if _exotic4(model):
         ctx.skip("OUTPUT4 reader model: behaviour outside the model (negative index / non-ASCII name / backward seek) on a malformed file")
         return True
@@ -1607,7 +1652,7 @@ def _op4_reader_streams(ctx, op4, drv, sc, encoded4):
     rep = drv.ask(req) if req else []
     for (stream, desc, data, mode, nl, tok, cut), r in zip(items, rep):
         ctx.case((stream, hashlib_key(data), str(mode), tok, cut), nontrivial=True, branch="stream:" + stream)
-        model = _parse_rd4(r)
+        model = _rd4_norm(_parse_rd4(r))
         p = sc.path(".op4")
         open(p, "wb").write(data)
         impl = _py_op4_load(op4, p, mode, namelist=nl, cut=cut, limit=8)
@@ -2016,18 +2061,210 @@ def _family(case, what):
     return "op4-ascii-variant-%s-%s" % ("D" if case["useD"] else "E", what)
 
 
+def _name_test(name, namelist):
+    """the documented name test of op4.load(namelist=...): the (lower-case) matrix name is one of the names given"""
+    return (not namelist) or name in ([namelist] if isinstance(namelist, str) else list(namelist))
+
+
+def _oracle_op4_subsets(op4, path, mats):
+    """named subset = filter of the full read (exact name test, all occurrences, file order); dict mode = last
+    occurrence per name; the result does not depend on _rowsCutoff.  Public API only."""
+    names = [m["name"].lower() for m in mats]
+    try:
+        with warnings.catch_warnings(), _TimeLimit(15):
+            warnings.simplefilter("ignore")
+            fn, fm, ff, ft = op4.load(path, into="list")
+            full = list(zip(fn, [_bits(np.asarray(x)) for x in fm], map(int, ff), map(int, ft)))
+            cands = [names[0], [names[-1]], [names[0][: max(1, len(names[0]) - 1)]], [names[-1] + "x"], [names[0].upper()],
+                     [names[0], names[-1]], list(reversed(names))]
+            for nl in cands:
+                sn, sm, sf, st = op4.load(path, namelist=nl, into="list")
+                got = list(zip(sn, [_bits(np.asarray(x)) for x in sm], map(int, sf), map(int, st)))
+                want = [t for t in full if _name_test(t[0], nl)]
+                if got != want:
+                    return ("named-subset-is-not-the-filter", {"namelist": nl, "returned": [g[0] for g in got]}, [w[0] for w in want])
+                d = op4.load(path, namelist=nl, into="dct")
+                wd = {}
+                for t in want:
+                    wd[t[0]] = t
+                gd = [(k, _bits(np.asarray(v[0])), int(v[1]), int(v[2])) for k, v in d.items()]
+                if gd != list(wd.values()):
+                    return ("dict-mode-is-not-last-occurrence", {"namelist": nl, "returned": [g[0] for g in gd]}, list(wd))
+            for cut in (1, 10 ** 9):
+                o = op4.OP4()
+                o._rowsCutoff = cut
+                cn, cm, cf, ct = o.load(path, into="list")
+                if list(zip(cn, [_bits(np.asarray(x)) for x in cm], map(int, cf), map(int, ct))) != full:
+                    return ("cutoff-changes-the-read", {"_rowsCutoff": cut}, "the same matrices as with the default 3000")
+    except TimeoutError as e:
+        return ("timeout", str(e), "a read that terminates")
+    except Exception as e:  # noqa: BLE001
+        return ("named-read-raises", "%s: %s" % (type(e).__name__, e), "the named matrices")
+    return None
+
+
+_UINT_FINDING = "op2-rdop2record-uint-i64-struct-format-stays-signed"
+
+
+def _oracle_op2_forms(op2, path, case):
+    """every form of rdop2record decodes the same bytes (reinterpreted), N = item count changes nothing, the
+    cut-off changes nothing; rdop2mats(names, which) = filter of rdop2mats(which) by the documented name test.
+    Public API only (plus the logical content the file was encoded from)."""
+    e = "<" if case["endian"] == "l" else ">"
+    kb = 8 if case["bit64"] else 4
+    o2 = op2.OP2(path)
+    finding = None
+    try:
+        for sn, b in zip(o2.dblist, case["blocks"]):
+            if b["t"] != "t":
+                continue
+            o2.set_position(sn.start)
+            o2.rdop2nt()
+            starts = []
+            for _ in b["records"]:
+                starts.append(o2._fileh.tell())
+                o2.skipop2record()
+            for pos, pieces in list(zip(starts, b["records"]))[:3]:
+                B = b"".join(struct.pack(e + "%d%s" % (len(pc), "q" if kb == 8 else "i"), *pc) for pc in pieces)
+                for form, dt, w in (("int", e + ("i8" if kb == 8 else "i4"), kb), ("uint", e + ("u8" if kb == 8 else "u4"), kb),
+                                    ("single", e + "f4", 4), ("double", e + "f8", 8), ("bytes", None, 1)):
+                    if any((len(pc) * kb) % w for pc in pieces):
+                        continue  # reclen // bytes_per drops a partial item: outside the property
+                    want = list(B) if dt is None else np.frombuffer(B, dtype=dt)
+                    for cut in (3000, 0):
+                        for N in ((0,) if dt is None else (0, len(want))):
+                            o2._rowsCutoff = cut
+                            o2._fileh.seek(pos)
+                            try:
+                                got = o2.rdop2record(form, N)
+                            except Exception as ex:  # noqa: BLE001
+                                o2._rowsCutoff = 3000
+                                fam = _UINT_FINDING if (form == "uint" and kb == 8 and isinstance(ex, OverflowError)) else None
+                                if fam:  # the known family: note it once, go on with the other checks
+                                    finding = finding or ("rdop2record-form-raises", {"form": form, "N": N, "_rowsCutoff": cut,
+                                                          "record": [list(pc) for pc in pieces][:4], "raises": "%s: %s" % (type(ex).__name__, ex)},
+                                                          "the payload bytes read as uint (as with _rowsCutoff = 0)", fam)
+                                    continue
+                                return ("rdop2record-form-raises", {"form": form, "N": N, "_rowsCutoff": cut, "record": [list(pc) for pc in pieces][:4],
+                                                                    "raises": "%s: %s" % (type(ex).__name__, ex)},
+                                        "the payload bytes read as %s" % form, fam)
+                            o2._rowsCutoff = 3000
+                            if dt is None:
+                                same = list(got) == want
+                            else:
+                                g = np.asarray(got)
+                                same = g.dtype.itemsize == w and g.astype(g.dtype.newbyteorder(e)).tobytes() == B
+                            if not same:
+                                return ("rdop2record-form-differs", {"form": form, "N": N, "_rowsCutoff": cut}, "the payload bytes read as %s" % form, None)
+        mblocks = [b for b in case["blocks"] if b["t"] == "m"]
+        if mblocks:
+            byname = {}
+            for b in mblocks:
+                byname.setdefault(b["name"], []).append(_bits(_op2_expected_matrix(b)))
+            nm = mblocks[0]["name"]
+            for names in (None, [nm.lower()], [nm[: max(1, len(nm) - 1)].lower() + "*"], [nm[: max(1, len(nm) - 1)]], ["*"], [nm + "x", nm]):
+                for which in (-1, 0, "all"):
+                    d = o2.rdop2mats(names=names, which=which)
+
+                    def ok(name):
+                        if names is None:
+                            return True
+                        for p in names:
+                            p = p.upper()
+                            if (name.startswith(p[:-1]) if p.endswith("*") else name == p):
+                                return True
+                        return False
+
+                    want = {k: (v if which == "all" else [v[which]]) for k, v in byname.items() if ok(k)}
+                    got = {k: [_bits(x) for x in (v if which == "all" else [v])] for k, v in d.items()}
+                    if list(got) != list(want) or got != want:
+                        return ("rdop2mats-names-which", {"names": names, "which": which, "returned": list(got)}, list(want), None)
+    finally:
+        o2._fileh.close()
+        o2._fileh = None
+    return finding
+
+
 def _oracle_case(ctx, sc, case):
     """encode with the independent Python encoder, read with pyYeti; returns failure tuple or None"""
     if case["kind"] == "op4bin":
         p = sc.path(".op4")
         open(p, "wb").write(_py_encode_bin(case))
-        return _check_op4_file(_op4(), p, case["mats"], _bin_mtypes(case))
+        r = _check_op4_file(_op4(), p, case["mats"], _bin_mtypes(case))
+        if r is None and case["mats"]:
+            r = _oracle_op4_subsets(_op4(), p, case["mats"])
+        return r
     if case["kind"] == "op2":
         data, pos = _py_encode_op2(case)
         p = sc.path(".op2")
         open(p, "wb").write(data)
-        return _check_op2_file(_op2(), p, case, pos)
+        r = _check_op2_file(_op2(), p, case, pos)
+        if r is None:
+            try:
+                with _TimeLimit(30):
+                    r = _oracle_op2_forms(_op2(), p, case)
+            except TimeoutError as e:
+                r = ("timeout", str(e), "a read that terminates")
+            except Exception as e:  # noqa: BLE001
+                r = ("forms-or-rdop2mats-raise", "%s: %s" % (type(e).__name__, e), "the encoded records and matrices")
+        return r
     return None
+
+
+def _oracle_ascii(ctx, sc):
+    """ASCII files written by pyYeti's own writer (public API): dir lists what load returns, a named read is the
+    filter of the full read, dict mode keeps the last occurrence"""
+    op4 = _op4()
+    rng = ctx.rng
+    for it in range(ctx.pick(40, 400)):
+        ctx.count("oracle:op4-ascii-written")
+        n = rng.randint(1, 4)
+        names = [_name(rng).lower() for _ in range(n)]
+        if n > 2 and rng.random() < 0.4:
+            names[-1] = names[0]
+        elif n > 1 and rng.random() < 0.4 and len(names[0]) < 8:
+            names[-1] = names[0] + "x"
+        mats = []
+        for _ in range(n):
+            r, c = rng.choice([1, 2, 5, 9]), rng.choice([1, 2, 4])
+            A = np.array([[float(rng.randint(-9, 9)) / rng.choice([1, 2, 4]) if rng.random() < 0.6 else 0.0 for _ in range(c)] for _ in range(r)])
+            if rng.random() < 0.3:
+                A = A + 1j * np.roll(A, 1, axis=0)
+            mats.append(A)
+        p = sc.path(".op4")
+        sparse = rng.choice(["dense", "bigmat", "nonbigmat"])
+        try:
+            with warnings.catch_warnings(), _TimeLimit(20):
+                warnings.simplefilter("ignore")
+                op4.write(p, names, mats, binary=False, digits=rng.choice([9, 16]), sparse=sparse)
+                dn, ds, df, dt = op4.dir(p, verbose=False)
+                fn, fm, ff, ft = op4.load(p, into="list")
+                bad = None
+                if not (dn == fn == names and [tuple(map(int, x)) for x in ds] == [m.shape for m in mats] == [x.shape for x in fm]
+                        and list(map(int, df)) == list(map(int, ff)) and list(map(int, dt)) == list(map(int, ft))):
+                    bad = ("dir-vs-load", [dn, [tuple(map(int, x)) for x in ds]], [fn, [x.shape for x in fm]])
+                for nl in ([names[-1]], [names[0][: max(1, len(names[0]) - 1)]], [names[0].upper()], [names[0], "zz9"]):
+                    if bad:
+                        break
+                    sn, sm, sf, st = op4.load(p, namelist=nl, into="list")
+                    want = [(a, _bits(np.asarray(x))) for a, x in zip(fn, fm) if a in nl]
+                    if [(a, _bits(np.asarray(x))) for a, x in zip(sn, sm)] != want:
+                        bad = ("named-subset-is-not-the-filter", {"namelist": nl, "returned": sn}, [w[0] for w in want])
+                    d = op4.load(p, namelist=nl, into="dct", justmatrix=True)
+                    wd = {}
+                    for a, x in want:
+                        wd[a] = x
+                    if [(k, _bits(np.asarray(v))) for k, v in d.items()] != list(wd.items()):
+                        bad = ("dict-mode-is-not-last-occurrence", {"namelist": nl, "returned": list(d)}, list(wd))
+            if bad:
+                ctx.fail("op4-ascii-written-%s-%s" % (sparse, bad[0]), "ASCII file written by op4.write: " + bad[0],
+                         {"names": names, "shapes": [list(m.shape) for m in mats], "sparse": sparse}, bad[1], bad[2])
+        except Exception as e:  # noqa: BLE001
+            ctx.fail("op4-ascii-written-raises", "writing / listing / reading an ASCII file raises",
+                     {"names": names, "shapes": [list(m.shape) for m in mats], "sparse": sparse}, repr(e), "a listing equal to the read")
+        finally:
+            if os.path.exists(p):
+                os.remove(p)
 
 
 def _shrink(ctx, sc, case):
@@ -2146,15 +2383,27 @@ def search(ctx, hints):
                 if ntime >= 2:
                     break
                 continue
+            if r is not None and len(r) > 3 and r[3] == _UINT_FINDING:
+                if not ctx.extra.get("uint_finding_reported"):
+                    ctx.extra["uint_finding_reported"] = True
+                    c = _shrink(ctx, sc, case)
+                    r2 = _oracle_case(ctx, sc, c) or r
+                    ctx.fail(_UINT_FINDING, "rdop2record(form='uint') in a file with 64-bit keys raises OverflowError below _rowsCutoff for a key "
+                             "with its top bit set (signed struct format '%dq'), and returns the unsigned values from the cut-off on",
+                             _jsonable_case(c), r2[1], r2[2])
+                ctx.count("oracle:uint-i64-finding-seen")
+                continue
             if r is not None:
                 c = _shrink(ctx, sc, case)
                 r2 = _oracle_case(ctx, sc, c) or r
-                ctx.fail(_family(c, r2[0]), "file encoded from the format (independent Python encoder) is not read back: " + r2[0],
+                fam = r2[3] if len(r2) > 3 and r2[3] else _family(c, r2[0])
+                ctx.fail(fam, "file encoded from the format (independent Python encoder) is not read back: " + r2[0],
                          _jsonable_case(c), r2[1], r2[2])
                 nfail += 1
                 if nfail > 25:
                     break
         _sample_files(ctx)
+        _oracle_ascii(ctx, sc)
     finally:
         sc.close()
 
@@ -2194,6 +2443,7 @@ def replay(ctx, data):
         r = _oracle_case(ctx, sc, case)
         if r is None:
             return None
-        return {"family": _family(case, r[0]), "what": r[0], "input": inp, "observed": r[1], "required": r[2]}
+        fam = r[3] if len(r) > 3 and r[3] else _family(case, r[0])
+        return {"family": fam, "what": r[0], "input": inp, "observed": r[1], "required": r[2]}
     finally:
         sc.close()
